@@ -69,6 +69,9 @@ func (c *Cluster) RoundTrip(group string, req *http.Request) (*http.Response, er
 		defer c.end(r)
 		if r.Rejected {
 			r.Result = "error"
+			if c.FailCode == 409 && u.GetKind() != "Namespace" {
+				return status(409, "AlreadyExists", "injected fault (create)"), nil
+			}
 			return faultStatus("injected fault (create)"), nil
 		}
 		res, st := c.doCreate(k, u, dry)
